@@ -229,6 +229,40 @@ theorem protected_never_overwritten (s : Settings) (live : Live) (install : ICSe
 
 example : (⟨"/r/etc".toList, "foo".toList, 1⟩ : LiveFile).path = "/r/etc/foo".toList := by decide +kernel
 
+/-- **The incoming file is written beside the protected one**, under the `._cfgNNNN_` name with the number of
+`cfg_number_fresh_or_reused`: for a package whose entries have distinct locations and which ships no `._cfgNNNN_` files
+itself, every entry that needed protection is found, with its own content, at `<dir>/._cfgNNNN_<name>` after the merge. -/
+theorem update_written_beside (s : Settings) (live : Live) (install : ICSet)
+    (hnd : (install.map fun e => (e.dir, e.base)).Nodup) (hno : ∀ e ∈ install, parseCfg e.base = none)
+    (hsmall : ∀ g ∈ live, ∀ k fn, parseCfg g.base = some (k, fn) → k < 9999)
+    (e : IEntry) (he : e ∈ install) (hn : needsProtection s live e = true) :
+    Live.lookup (mergeFs live (protectInstall s live install).1) e.dir
+      (cfgName (chooseCount 0 (pendingFor live e.dir e.base) e.content) e.base) = some e.content := by
+  have hfilter_nd : (((install.filter (needsProtection s live))).map fun e => (e.dir, e.base)).Nodup :=
+    List.Nodup.sublist (List.Sublist.map _ List.filter_sublist) hnd
+  have hmem : renamed live e ∈ (protectInstall s live install).1 := by
+    rw [protectInstall_eq]
+    exact protectFold_renamed_mem live hsmall _ hfilter_nd (fun x hx => hno x (List.mem_filter.1 hx).1) _ e
+      (List.mem_filter.2 ⟨he, hn⟩)
+  apply mergeFs_lookup_const
+  · intro g hg hgd hgb
+    rcases protectInstall_sound s live install g hg with ⟨hin, _⟩ | ⟨e', he', hn', rfl⟩
+    · -- an untouched package entry cannot carry a ._cfg name
+      have h1 := parseCfg_cfgName _ (chooseCount_lt live hsmall e.dir e.base e.content) e.base
+      rw [← hgb, hno g hin] at h1
+      cases h1
+    · -- another renamed entry with this name is the same entry
+      have hkey := renamed_key_inj live hsmall e' e hgd hgb
+      have hsame : e' = e := by
+        exact inj_of_nodup_map (fun e => (e.dir, e.base)) install hnd he' he (by simp only [hkey.1, hkey.2])
+      subst hsame
+      refine ⟨?_, rfl⟩
+      unfold needsProtection at hn
+      split at hn
+      · simp only [Bool.and_eq_true] at hn; exact hn.1.2
+      · cases hn
+  · exact Or.inr ⟨renamed live e, hmem, rfl, rfl⟩
+
 /-! ## unmerging -/
 
 /-- **Unmerging keeps a protected file the user changed**: a live file the package recorded, whose location passes the
